@@ -5,7 +5,7 @@ CONSTANTS
   FieldSeps = {":", "|"}
   ArraySizes = {0}
   ActiveFns = {"LeafUseDotNotation", "SetAttrPrefix"}
-  ActiveOps = {"leaf"}
-  MaxHist = 6
+  ActiveOps = {"leaf", "struct"}
+  MaxHist = 5
 INVARIANTS Functional OnlyRelevant Emit
 CHECK_DEADLOCK FALSE
